@@ -134,6 +134,11 @@ func init() {
 					hdr = append(hdr, [2]string{"Authorization", "Bearer " + w.idp.mintIDToken(user, func(cl map[string]interface{}) { cl["iss"] = "https://evil.example/" }, "")})
 				case "bearer_wrong_aud":
 					hdr = append(hdr, [2]string{"Authorization", "Bearer " + w.idp.mintIDToken(user, func(cl map[string]interface{}) { cl["aud"] = "someone-else" }, "")})
+				case "bearer_multi_aud_azp":
+					hdr = append(hdr, [2]string{"Authorization", "Bearer " + w.idp.mintIDToken(user, func(cl map[string]interface{}) {
+						cl["aud"] = []string{"service-a", "service-b"}
+						cl["azp"] = vpClientID
+					}, "")})
 				case "bearer_expired":
 					hdr = append(hdr, [2]string{"Authorization", "Bearer " + w.idp.mintIDToken(user, func(cl map[string]interface{}) { cl["exp"] = time.Now().Add(-time.Hour).Unix() }, "")})
 				case "bearer_unverified":
